@@ -55,6 +55,13 @@ var targets = []target{
 	{"simple_tree_verifier.go", "defaultVerifierSimple.handleErr"},
 	{"node.go", "Node.validatePath"},
 	{"node.go", "Node.path"},
+	{"node.go", "Node.branch"},
+	{"simple_tree_walker.go", "WalkerNode.Name"},
+	{"simple_tree_walker.go", "WalkerNode.Branch"},
+	{"simple_tree_walker.go", "WalkerNode.Row"},
+	{"simple_tree_walker.go", "WalkerNode.Level"},
+	{"simple_tree_walker.go", "WalkerNode.Path"},
+	{"simple_tree_walker.go", "WalkerNode.HasChild"},
 }
 
 // struct types that are handled through pointers which the translated functions never find nil (a nil
@@ -65,7 +72,8 @@ var derefStructs = map[string]bool{"Node": true}
 // struct types whose values are translated (all their fields of supported type; others dropped)
 var structFiles = map[string]string{"Parser": "markdown/parser.go", "Markdown": "markdown/markdown.go", "inputFormatError": "node_generator.go", "nodeGenerator": "node_generator.go",
 	"Node": "node.go", "branch": "node.go", "fileConsiderer": "file_considerer.go",
-	"defaultVerifierSimple": "simple_tree_verifier.go", "verifyError": "simple_tree_verifier.go"}
+	"defaultVerifierSimple": "simple_tree_verifier.go", "verifyError": "simple_tree_verifier.go",
+	"WalkerNode": "simple_tree_walker.go"}
 
 type fnInfo struct {
 	decl    *ast.FuncDecl
@@ -400,6 +408,24 @@ func (t *tr) callName(sc *scope, fun ast.Expr) (kind, name string) {
 	case *ast.Ident:
 		return "func", f.Name
 	case *ast.SelectorExpr:
+		// a method of the struct a field holds: wn.origin.isRoot()
+		if inner, ok := f.X.(*ast.SelectorExpr); ok && sc != nil && sc.fn != nil {
+			if base, ok := inner.X.(*ast.Ident); ok {
+				owner := ""
+				if base.Name == sc.fn.rname {
+					owner = sc.fn.recv
+				} else {
+					owner = paramStruct(sc.fn, base.Name)
+				}
+				for _, fld := range t.structs[owner] {
+					if fld[0] == inner.Sel.Name {
+						if _, ok := structFiles[fld[1]]; ok {
+							return "pmethod:" + fld[1], f.Sel.Name
+						}
+					}
+				}
+			}
+		}
 		if p, ok := f.X.(*ast.Ident); ok {
 			if p.Name == "strings" {
 				return "strings", f.Sel.Name
@@ -1315,6 +1341,7 @@ func (t *tr) render() string {
 	}
 	sort.Strings(sn)
 	emitted := map[string]bool{}
+	noInst := map[string]bool{}
 	mentions := func(ty, name string) bool {
 		for _, w := range strings.FieldsFunc(ty, func(r rune) bool { return r == ' ' || r == '(' || r == ')' }) {
 			if w == name {
@@ -1333,9 +1360,10 @@ func (t *tr) render() string {
 			for _, f := range t.structs[s] {
 				for _, o := range sn {
 					if mentions(f[1], o) {
-						if o == s {
-							recursive = true
-						} else if !emitted[o] {
+						if o == s || noInst[o] {
+							recursive = true // (or holds a structure for which no instances are derived)
+						}
+						if o != s && !emitted[o] {
 							ready = false
 						}
 					}
@@ -1352,6 +1380,7 @@ func (t *tr) render() string {
 				b.WriteString("  " + id(f[0]) + " : " + f[1] + "\n")
 			}
 			if recursive {
+				noInst[s] = true
 				b.WriteString("\n") // a recursive structure: no instances are derived
 			} else {
 				b.WriteString("deriving Repr, DecidableEq, BEq\n\n")
